@@ -70,6 +70,17 @@ def _plan(draw, max_rows):
         hx["args"]["ddof"] = draw(st.sampled_from([0, 1]))
     plan = {"frame": {"n": n, "cols": cols}, "by": [f"g{j}" for j in draw(st.permutations(range(nk)))], "hx": hx}
     draw(gen.decorate(plan["frame"]))
+    if 2 <= n <= 40 and draw(st.integers(0, 5)) == 0:
+        # the receiver is the direct result of a sort by exactly the group columns, in drawn directions: the rows are
+        # laid out in that order already (reference sort), so the sort is the identity on positions and the plan stands
+        dirs = [draw(st.sampled_from([1, -1, -1])) for _ in plan["by"]]
+        byname = {c["name"]: c for c in cols}
+        kc = [[build.pcell(byname[g]["kind"], v) for v in byname[g]["vals"]] for g in plan["by"]]
+        order = model.row_orders(kc, dirs)[draw(st.integers(0, 1)) % len(model.row_orders(kc, dirs))]
+        for c in cols:
+            c["vals"] = [c["vals"][r] for r in order]
+        plan["presort"] = dirs
+        plan["frame"].pop("via", None)
     if n and n <= 40 and draw(st.integers(0, 3)) == 0:
         edits = []
         for _ in range(draw(st.integers(1, 3))):
@@ -139,6 +150,15 @@ class Violation(Violation):                    # prefixes the phase to every mes
 
 def check(plan, ctx):
     data = build.frame(plan["frame"])
+    if plan.get("presort"):
+        try:
+            srt = data.sort(**dict(zip(plan["by"], plan["presort"])))
+            if build.snap_frame(srt) == build.snap_frame(data):
+                data = srt                      # same table, but the direct result of a sort (whatever sort leaves on it)
+                ctx.cls("receiver_is_the_result_of_a_sort_by_the_group_columns",
+                        "presort_descending" if -1 in plan["presort"] else "presort_ascending")
+        except Exception:
+            pass
     _check_once(plan, data, ctx)
     if plan.get("edits") and plan["frame"]["n"]:
         # history: cells of a group column of the same frame object are overwritten in place, then every grouped
